@@ -28,7 +28,10 @@ open BarterModel.Streams
 /-- `STREAM_RECONNECTION_POLICY` (consumer.rs:23-27). -/
 def streamReconnectionPolicy : Policy := ⟨125, 2, 60000⟩
 
-/-- The `DataError` variants a scripted market stream yields (`error.rs:8-44`). -/
+/-- The `DataError` variants (`error.rs:8-44`), ALL eight of them: a `MarketStream` may yield any
+`DataError`, and `is_terminal` is a function of the variant alone. (The first four are what the
+repository's own streams yield; the last four are produced by `init` / indexing code paths, but nothing
+in the types keeps them out of a stream, and the closure of `init_market_stream` classifies them too.) -/
 inductive ErrKind where
   /-- `DataError::InvalidSequence { .. }` -/
   | invalidSequence
@@ -38,6 +41,14 @@ inductive ErrKind where
   | snapshotMissing
   /-- `DataError::InitialSnapshotInvalid(_)` -/
   | snapshotInvalid
+  /-- `DataError::Index(_)` -/
+  | index
+  /-- `DataError::SubscriptionsEmpty` -/
+  | subscriptionsEmpty
+  /-- `DataError::UnsupportedSubKind(_)` -/
+  | unsupportedSubKind
+  /-- `DataError::Unsupported { .. }` -/
+  | unsupported
   deriving DecidableEq, Repr, Inhabited
 
 /-- `DataError::is_terminal` (error.rs:49-54): `InvalidSequence` and nothing else. -/
@@ -45,17 +56,20 @@ def ErrKind.isTerminal : ErrKind → Bool
   | .invalidSequence => true
   | _ => false
 
-def ErrKind.index : ErrKind → Nat
+/-- position of the variant in the packing below (NOT the declaration order of `error.rs`) -/
+def ErrKind.idx : ErrKind → Nat
   | .invalidSequence => 0 | .socket => 1 | .snapshotMissing => 2 | .snapshotInvalid => 3
+  | .index => 4 | .subscriptionsEmpty => 5 | .unsupportedSubKind => 6 | .unsupported => 7
 
-def ErrKind.ofIndex : Nat → ErrKind
-  | 0 => .invalidSequence | 1 => .socket | 2 => .snapshotMissing | _ => .snapshotInvalid
+def ErrKind.ofIdx : Nat → ErrKind
+  | 0 => .invalidSequence | 1 => .socket | 2 => .snapshotMissing | 3 => .snapshotInvalid
+  | 4 => .index | 5 => .subscriptionsEmpty | 6 => .unsupportedSubKind | _ => .unsupported
 
 /-- A `DataError` value as an error id of the C12 model: kind and payload packed into one number. -/
-def errCode (k : ErrKind) (id : Nat) : Nat := 4 * id + k.index
+def errCode (k : ErrKind) (id : Nat) : Nat := 8 * id + k.idx
 
-def errKindOf (code : Nat) : ErrKind := .ofIndex (code % 4)
-def errIdOf (code : Nat) : Nat := code / 4
+def errKindOf (code : Nat) : ErrKind := .ofIdx (code % 8)
+def errIdOf (code : Nat) : Nat := code / 8
 
 /-- What one connection of the scripted exchange does next. -/
 inductive MElem where
@@ -145,6 +159,10 @@ def specElem : MElem → Elem
   | .error .socket id => .error (errCode .socket id) false
   | .error .snapshotMissing id => .error (errCode .snapshotMissing id) false
   | .error .snapshotInvalid id => .error (errCode .snapshotInvalid id) false
+  | .error .index id => .error (errCode .index id) false
+  | .error .subscriptionsEmpty id => .error (errCode .subscriptionsEmpty id) false
+  | .error .unsupportedSubKind id => .error (errCode .unsupportedSubKind id) false
+  | .error .unsupported id => .error (errCode .unsupported id) false
 
 /-- the script as the property reads it -/
 def specScript : List MConn → List Conn
